@@ -167,6 +167,41 @@ def roundtrip(ctx, cs, seed):
     ctx.check('default charset after successful call', probe() is None, f'leak:{cs}', case, probe())
 
 
+def reassigned_charset(ctx, cs_a, cs_b, seed):
+    """The charset in force is the file's CURRENT charset attribute."""
+    rng = random.Random(seed)
+    case = lambda: {'kind': 'reassign', 'a': cs_a, 'b': cs_b, 'seed': seed}  # noqa: E731
+    common = [c for c in alphabet(cs_a) if c in set(alphabet(cs_b))]
+    hi = [c for c in common if ord(c) > 127] or common
+    text = ''.join(rng.choice(hi) for _ in range(6))
+    mid = MidiFile(charset=cs_a)
+    mid.tracks.append(MidiTrack([MetaMessage('text', text=text), MetaMessage('track_name', name=text, time=2)]))
+    try:
+        b1 = io.BytesIO()
+        mid.save(file=b1)
+        mid.charset = cs_b
+        b2 = io.BytesIO()
+        mid.save(file=b2)
+        d = smf.decode_file(b2.getvalue())
+        got = [bytes(e[3]) for e in d['tracks'][0] if e[0] == 'meta' and e[2] in (1, 3)]
+        ctx.check('file payload == text.encode(charset)', got == [text.encode(cs_b)] * 2, f'reassigned-save:{cs_a}->{cs_b}',
+                  case, lambda: {'got': [g.hex() for g in got], 'want': text.encode(cs_b).hex()})
+        check_probe(ctx, 'default charset after successful call', 'leak-after-reassigned-save', case)
+        # load with cs_a (possibly garbled), switch the attribute, save again: bytes re-encoded under cs_b
+        back = MidiFile(file=io.BytesIO(b2.getvalue()), charset=cs_b)
+        back.charset = cs_a
+        b3 = io.BytesIO()
+        back.save(file=b3)
+        d = smf.decode_file(b3.getvalue())
+        got = [bytes(e[3]) for e in d['tracks'][0] if e[0] == 'meta' and e[2] in (1, 3)]
+        ctx.check('file payload == text.encode(charset)', got == [text.encode(cs_a)] * 2,
+                  f'reassigned-after-load:{cs_b}->{cs_a}', case, lambda: [g.hex() for g in got])
+    except Exception as exc:
+        ctx.fail('file payload == text.encode(charset)', f'reassign-raised:{type(exc).__name__}', case,
+                 f'{type(exc).__name__}: {exc}')
+        restore_default()
+
+
 class FaultyFile:
     """File object whose k-th read()/write() raises OSError."""
 
@@ -342,6 +377,13 @@ def run(ctx):
             if j == 0:
                 ctx.put_sample({'charset': cs, 'text': rand_text(random.Random(seed), cs, 6),
                                 'encoded': rand_text(random.Random(seed), cs, 6).encode(cs).hex()})
+    pairs = [(a, b) for a in CHARSETS for b in CHARSETS if a != b]
+    for pi, (a, b) in enumerate(pairs):
+        if pi % N != sh or (ctx.tier == 'quick' and pi % 3):
+            continue
+        reassigned_charset(ctx, a, b, f'{ctx.seed}:{a}:{b}')
+        ctx.nontrivial(('reassign', a, b))
+        n += 1
     # classic faults
     nf = 2 if ctx.tier == 'quick' else 8
     for ci, cs in enumerate(CHARSETS):
@@ -376,6 +418,8 @@ def replay(ctx, case):
     k = case['kind']
     if k == 'roundtrip':
         roundtrip(ctx, case['charset'], case['seed'])
+    elif k == 'reassign':
+        reassigned_charset(ctx, case['a'], case['b'], case['seed'])
     elif k == 'faults':
         fault_sweep(ctx, case['charset'], case['seed'], 'thorough')
     else:
